@@ -24,6 +24,7 @@ CONSTANTS
   Denied <- MCNoDenied
   Toks = {"none"}
   ResvTO = 30
+  QuotaDenied = {}
   MaxDepth = 5
 CONSTRAINT DepthBound
 ACTION_CONSTRAINT EmitEdge
